@@ -954,6 +954,59 @@ fn main() {
         }
         std::process::exit(0);
       }
+      "pub_stalled_subscriber_inproc" => {
+        // public API, inproc transport: PUB (SNDHWM 1) with two SUB sockets subscribed to everything; one (RCVHWM 1) never
+        // calls recv, the other reads. Messages are published until one publish call does not return within 2 s.
+        let rt = tokio::runtime::Builder::new_multi_thread().worker_threads(4).enable_all().build().unwrap();
+        let res = rt.block_on(async move {
+          let ctx = rzmq::Context::new().unwrap();
+          let publ = ctx.socket(rzmq::SocketType::Pub).unwrap();
+          publ.set_option(rzmq::socket::options::SNDHWM, 1i32).await.unwrap();
+          publ.bind("inproc://pub-stalled").await.unwrap();
+          let stalled = ctx.socket(rzmq::SocketType::Sub).unwrap();
+          stalled.set_option(rzmq::socket::options::RCVHWM, 1i32).await.unwrap();
+          stalled.set_option_raw(rzmq::socket::options::SUBSCRIBE, b"").await.unwrap();
+          stalled.connect("inproc://pub-stalled").await.unwrap();
+          let sub = ctx.socket(rzmq::SocketType::Sub).unwrap();
+          sub.set_option(rzmq::socket::options::RCVTIMEO, 300i32).await.unwrap();
+          sub.set_option_raw(rzmq::socket::options::SUBSCRIBE, b"").await.unwrap();
+          sub.connect("inproc://pub-stalled").await.unwrap();
+          tokio::time::sleep(Duration::from_millis(400)).await;
+          let counter = std::sync::Arc::new(std::sync::atomic::AtomicUsize::new(0));
+          let c2 = counter.clone();
+          let reader = tokio::spawn(async move {
+            loop {
+              if sub.recv().await.is_ok() {
+                c2.fetch_add(1, std::sync::atomic::Ordering::SeqCst);
+              }
+            }
+          });
+          let mut published = 0usize;
+          let mut blocked_ms = None;
+          for _ in 0..400 {
+            let t0 = Instant::now();
+            let fut = publ.send(rzmq::Msg::from_vec(vec![0x5Au8; 32]));
+            tokio::pin!(fut);
+            match tokio::time::timeout(Duration::from_secs(2), &mut fut).await {
+              Ok(_) => published += 1,
+              Err(_) => {
+                let _ = tokio::time::timeout(Duration::from_secs(4), &mut fut).await;
+                blocked_ms = Some(t0.elapsed().as_millis());
+                break;
+              }
+            }
+          }
+          tokio::time::sleep(Duration::from_millis(300)).await;
+          reader.abort();
+          drop(stalled);
+          (published, blocked_ms, counter.load(std::sync::atomic::Ordering::SeqCst))
+        });
+        match res.1 {
+          Some(ms) => println!("pub_stalled_subscriber_inproc published={} healthy_sub_received={} PUBLISHER BLOCKED for {} ms by the stalled subscriber", res.0, res.2, ms),
+          None => println!("pub_stalled_subscriber_inproc published={} healthy_sub_received={} publisher never blocked", res.0, res.2),
+        }
+        std::process::exit(0);
+      }
       "router_multipart_flags" => {
         // public API: ROUTER.send_multipart([identity, "a", "b"]) with NO MORE flags set by the application, to a DEALER
         // peer over tcp; prints how the payload arrives
